@@ -59,19 +59,22 @@ SendViolations(e) ==
 
 \* --- receiver (Feed events) ---
 RECURSIVE PktsUpTo(_, _)
-PktsUpTo(msgs, k) == IF k = 0 THEN 0 ELSE PktsUpTo(msgs, k - 1) + msgs[k].npk
+PktsUpTo(msgs, k) == IF k = 0 THEN 0 ELSE PktsUpTo(msgs, k - 1) + msgs[k].fedpk
 
 DeliveredOn(o, c) == SelectSeq(o.dlv, LAMBDA d : d.chan = c)
 
 ChannelOK(o, c) ==
     LET d == DeliveredOn(o, c)
         msgs == o.sent[c]
-        full == { k \in 1..Len(msgs) : PktsUpTo(msgs, k) <= o.fed[c] }
+        \* whole messages (not abandoned by their sender) all of whose packets have been fed; abandoned ones are
+        \* never delivered and do not disturb the whole ones that follow them on the channel
+        full == { k \in 1..Len(msgs) : msgs[k].whole /\ PktsUpTo(msgs, k) <= o.fed[c] }
+        whole == SelectSeq(msgs, LAMBDA m : m.whole)
     IN /\ Len(d) = Cardinality(full)
-       /\ \A k \in 1..Len(d) : /\ k <= Len(msgs)
-                               /\ d[k].cmd = msgs[k].cmd
-                               /\ d[k].len = msgs[k].len
-                               /\ \E i \in 1..Len(d[k].peq) : d[k].peq[i] = msgs[k].id
+       /\ \A k \in 1..Len(d) : /\ k <= Len(whole)
+                               /\ d[k].cmd = whole[k].cmd
+                               /\ d[k].len = whole[k].len
+                               /\ \E i \in 1..Len(d[k].peq) : d[k].peq[i] = whole[k].id
 
 FeedViolations(o) ==
     (IF o.wf /\ ~o.crashed /\ \E c \in ChanIds : ~ChannelOK(o, c) THEN {"C16.ExactlyOnceInOrder"} ELSE {})
@@ -82,7 +85,8 @@ FeedViolations(o) ==
 ObserveSend(o, e) ==
     IF e.res = "ok"
     THEN [o EXCEPT !.sent[e.c] = Append(@, [id |-> e.id, cmd |-> e.cmd, len |-> e.len,
-                                           npk |-> Len(e.pk)])]
+                                           npk |-> Len(e.pk), whole |-> e.cut = 0,
+                                           fedpk |-> IF e.cut = 0 THEN Len(e.pk) ELSE e.cut])]
     ELSE o
 
 ObserveFeed(o, e) ==
